@@ -126,21 +126,18 @@ theorem forFinish_nxt (lb ub st iv us en wb ρ) :
     (forFinish lb ub st iv us en wb ρ).nxt = (ensure us wb.sig wb.nxt).2.2 + us.length := rfl
 
 mutual
-theorem keysS : (s : PStmt) → ∀ σ cur n ρ, plainPS s = true →
-    KeysOK (wsDefs (weaveS s σ cur n ρ)) n (weaveS s σ cur n ρ).nxt
-  | .setup a fs out inp, σ, cur, n, ρ, _ => by
+theorem keysS : (s : PStmt) → ∀ σ cur n ρ, KeysOK (wsDefs (weaveS s σ cur n ρ)) n (weaveS s σ cur n ρ).nxt
+  | .setup a fs out inp, σ, cur, n, ρ => by
       simp only [wsDefs, weaveS, ldefsS, List.map_nil, List.nil_append]
       exact ⟨by simp, by simp⟩
-  | .launch _ _ _, _, _, n, _, _ => by simpa [wsDefs, weaveS, ldefsS] using KeysOK.nil n n
-  | .await _, _, _, n, _, _ => by simpa [wsDefs, weaveS, ldefsS] using KeysOK.nil n n
-  | .pure _ _ _, _, _, n, _, _ => by simpa [wsDefs, weaveS, ldefsS] using KeysOK.nil n n
-  | .call _ _, _, _, n, _, _ => by simpa [wsDefs, weaveS, ldefsS] using KeysOK.nil n n
-  | .ifS c t e, σ, cur, n, ρ, hpl => by
-      have hplt : plainPB t = true := by simp only [plainPS, Bool.and_eq_true] at hpl; exact hpl.1
-      have hple : plainPB e = true := by simp only [plainPS, Bool.and_eq_true] at hpl; exact hpl.2
+  | .launch _ _ _, _, _, n, _ => by simpa [wsDefs, weaveS, ldefsS] using KeysOK.nil n n
+  | .await _, _, _, n, _ => by simpa [wsDefs, weaveS, ldefsS] using KeysOK.nil n n
+  | .pure _ _ _, _, _, n, _ => by simpa [wsDefs, weaveS, ldefsS] using KeysOK.nil n n
+  | .call _ _, _, _, n, _ => by simpa [wsDefs, weaveS, ldefsS] using KeysOK.nil n n
+  | .ifS c t e, σ, cur, n, ρ => by
       simp only [weaveS, wsDefs, ifFinish_pre, ifFinish_stmt_eq, ifFinish_nxt, ldefsS, List.map_nil, List.nil_append]
-      have ht := keysB t σ noSig n ρ hplt
-      have he := keysB e σ noSig (weaveB t σ noSig n ρ).nxt ρ hple
+      have ht := keysB t σ noSig n ρ
+      have he := keysB e σ noSig (weaveB t σ noSig n ρ).nxt ρ
       have hmt := weaveB_mono t σ noSig n ρ
       have hme := weaveB_mono e σ noSig (weaveB t σ noSig n ρ).nxt ρ
       refine KeysOK.append ht (KeysOK.append he ?_ hme (Nat.le_add_right _ _)) hmt (by omega)
@@ -149,20 +146,19 @@ theorem keysS : (s : PStmt) → ∀ σ cur n ρ, plainPS s = true →
         (fun a => LDef.ifRes (((weaveB t σ noSig n ρ).sig a).getD 0)
           (((weaveB e σ noSig (weaveB t σ noSig n ρ).nxt ρ).sig a).getD 0))
       simpa [ifResOf, List.map_map, Function.comp_def] using this
-  | .forS lb ub st iv body (c :: cs), σ, cur, n, ρ, hpl => by simp [plainPS] at hpl
-  | .forS lb ub st iv body [], σ, cur, n, ρ, hpl => by
-      have hplb : plainPB body = true := by simpa [plainPS] using hpl
+  | .forS lb ub st iv body car, σ, cur, n, ρ => by
       simp only [weaveS]
       split
       · simp only [wsDefs, ldefsS, List.map_nil, List.nil_append, List.append_nil]
-        exact keysB body σ noSig n ρ hplb
-      · generalize sortU (accsPB body) = us
+        exact keysB body σ noSig n ρ
+      · generalize sortU (accsPB body ++ car.map (·.acc)) = us
         have hpre := keysOK_empties us σ n
         have hm1 := ensure_mono us σ n
         generalize ensure us σ n = en at *
-        have hb := keysB body (forBodySig us en) noSig (en.2.2 + us.length) ρ hplb
-        have hm2 := weaveB_mono body (forBodySig us en) noSig (en.2.2 + us.length) ρ
-        generalize weaveB body (forBodySig us en) noSig (en.2.2 + us.length) ρ = wb at *
+        generalize (car.map fun k => (k.arg, (((mkIds us en.2.2).lookup k.acc).getD 0))) ++ ρ = ρb
+        have hb := keysB body (forBodySig us en) noSig (en.2.2 + us.length) ρb
+        have hm2 := weaveB_mono body (forBodySig us en) noSig (en.2.2 + us.length) ρb
+        generalize weaveB body (forBodySig us en) noSig (en.2.2 + us.length) ρb = wb at *
         have hpost := keysOK_empties us wb.sig wb.nxt
         have hm3 := ensure_mono us wb.sig wb.nxt
         simp only [wsDefs, forFinish_pre, forFinish_stmt_eq, forFinish_nxt, ldefsS]
@@ -181,16 +177,13 @@ theorem keysS : (s : PStmt) → ∀ σ cur n ρ, plainPS s = true →
           KeysOK.union (fun p hp => (mem_ldefs_appEmpties _ _ _).mp hp) hb hpost hm2 hm3
         exact KeysOK.append hpre (KeysOK.append hargs (KeysOK.append hbody hress (by omega) (by omega))
           (by omega) (by omega)) hm1 (by omega)
-theorem keysB : (b : PBlock) → ∀ σ cur n ρ, plainPB b = true →
-    KeysOK (ldefsB (weaveB b σ cur n ρ).blk) n (weaveB b σ cur n ρ).nxt
-  | .nil, _, _, n, _, _ => by simpa [weaveB, ldefsB] using KeysOK.nil n n
-  | .cons s r, σ, cur, n, ρ, hpl => by
-      have hpls : plainPS s = true := by simp only [plainPB, Bool.and_eq_true] at hpl; exact hpl.1
-      have hplr : plainPB r = true := by simp only [plainPB, Bool.and_eq_true] at hpl; exact hpl.2
+theorem keysB : (b : PBlock) → ∀ σ cur n ρ, KeysOK (ldefsB (weaveB b σ cur n ρ).blk) n (weaveB b σ cur n ρ).nxt
+  | .nil, _, _, n, _ => by simpa [weaveB, ldefsB] using KeysOK.nil n n
+  | .cons s r, σ, cur, n, ρ => by
       simp only [weaveB, ldefs_prepend, ldefsB]
-      have hs := keysS s σ cur n ρ hpls
+      have hs := keysS s σ cur n ρ
       have hr := keysB r (weaveS s σ cur n ρ).sig (weaveS s σ cur n ρ).cur (weaveS s σ cur n ρ).nxt
-        (weaveS s σ cur n ρ).rho hplr
+        (weaveS s σ cur n ρ).rho
       have hm1 := weaveS_mono s σ cur n ρ
       have hm2 := weaveB_mono r (weaveS s σ cur n ρ).sig (weaveS s σ cur n ρ).cur (weaveS s σ cur n ρ).nxt
         (weaveS s σ cur n ρ).rho
@@ -199,40 +192,35 @@ theorem keysB : (b : PBlock) → ∀ σ cur n ρ, plainPB b = true →
 end
 
 /-- the owner table of the woven program finds every definition -/
-theorem tableOf_weave (p : PBlock) (hpl : plainPB p = true) :
-    ∀ q ∈ ldefsB (weave p), tableOf (weave p) q.1 = some q.2 := by
+theorem tableOf_weave (p : PBlock) : ∀ q ∈ ldefsB (weave p), tableOf (weave p) q.1 = some q.2 := by
   intro q hq
-  exact lookup_of_consistent _ (keysB p noSig noSig 0 [] hpl).2 q hq
+  exact lookup_of_consistent _ (keysB p noSig noSig 0 []).2 q hq
 
 /-- **the links agree with the position-based facts** (all accelerators, any nesting) -/
-theorem weave_agree (p : PBlock) (hpl : plainPB p = true) (hnd : nodupPB p = true) (a : AccId) :
+theorem weave_agree (p : PBlock) (hnd : nodupPB p = true) (a : AccId) :
     AgreeB a (tableOf (weave p)) [] (weave p) noFacts :=
-  (mainB a (tableOf (weave p)) p noSig noSig 0 [] [] noFacts hpl hnd (tableOf_weave p hpl) (fun _ _ => rfl)
+  (mainB a (tableOf (weave p)) p noSig noSig 0 [] [] noFacts hnd (tableOf_weave p) (fun _ _ => rfl)
     (by simp only [noSig, SigIs]; rfl) (by simp [noSig])).2
 
-/- on programs whose loops carry no state yet the pass never leaves the IR malformed -/
+/- the repaired pass never leaves the IR malformed -/
 mutual
-theorem badS : (s : PStmt) → ∀ σ cur n ρ, plainPS s = true → (weaveS s σ cur n ρ).bad = false
-  | .setup _ _ _ _, _, _, _, _, _ => by simp [weaveS]
-  | .launch _ _ _, _, _, _, _, _ => by simp [weaveS]
-  | .await _, _, _, _, _, _ => by simp [weaveS]
-  | .pure _ _ _, _, _, _, _, _ => by simp [weaveS]
-  | .call _ _, _, _, _, _, _ => by simp [weaveS]
-  | .ifS c t e, σ, cur, n, ρ, hpl => by
-      simp only [plainPS, Bool.and_eq_true] at hpl
-      simp [weaveS, ifFinish, badB t _ _ _ _ hpl.1, badB e _ _ _ _ hpl.2]
-  | .forS lb ub st iv body (c :: cs), σ, cur, n, ρ, hpl => by simp [plainPS] at hpl
-  | .forS lb ub st iv body [], σ, cur, n, ρ, hpl => by
-      have hplb : plainPB body = true := by simpa [plainPS] using hpl
+theorem badS : (s : PStmt) → ∀ σ cur n ρ, (weaveS s σ cur n ρ).bad = false
+  | .setup _ _ _ _, _, _, _, _ => by simp [weaveS]
+  | .launch _ _ _, _, _, _, _ => by simp [weaveS]
+  | .await _, _, _, _, _ => by simp [weaveS]
+  | .pure _ _ _, _, _, _, _ => by simp [weaveS]
+  | .call _ _, _, _, _, _ => by simp [weaveS]
+  | .ifS c t e, σ, cur, n, ρ => by
+      simp [weaveS, ifFinish, badB t, badB e]
+  | .forS lb ub st iv body car, σ, cur, n, ρ => by
       simp only [weaveS]
       split
-      · exact badB body _ _ _ _ hplb
-      · simp [forFinish, badB body _ _ _ _ hplb]
-theorem badB : (b : PBlock) → ∀ σ cur n ρ, plainPB b = true → (weaveB b σ cur n ρ).bad = false
-  | .nil, _, _, _, _, _ => by simp [weaveB]
-  | .cons s r, σ, cur, n, ρ, hpl => by
-      simp only [plainPB, Bool.and_eq_true] at hpl
-      simp [weaveB, badS s _ _ _ _ hpl.1, badB r _ _ _ _ hpl.2]
+      · exact badB body _ _ _ _
+      · simp [forFinish, badB body]
+theorem badB : (b : PBlock) → ∀ σ cur n ρ, (weaveB b σ cur n ρ).bad = false
+  | .nil, _, _, _, _ => by simp [weaveB]
+  | .cons s r, σ, cur, n, ρ => by
+      simp [weaveB, badS s, badB r]
 end
 
 end SnaxVerif.AccfgLinks
